@@ -201,7 +201,7 @@ def calls(ck, name, family, scale=1, shards=NCPU, timeout=3000, spec="TraceCalls
         nlines.append(n)
         jobs.append(dict(module=spec, cfg=os.path.join(SPEC, spec + ".cfg"),
                          name="calls_%s_%d" % (name, i), env={"TRACE": f},
-                         workers=1, timeout=timeout, xmx="3g"))
+                         workers=1, timeout=timeout, xmx="2g"))
     results = tlc_many(jobs, parallel=NCPU)
     nrej = 0
     for f, n, res in zip(files, nlines, results):
@@ -338,7 +338,7 @@ def streams(ck, name, family, scale=1, faults=False, maxstream=4, sizes="1,2,3",
         nlines.append(n)
         jobs.append(dict(module="TraceStream", cfg=os.path.join(SPEC, "TraceStream.cfg"),
                          name="stream_%s_%d" % (name, i), env={"TRACE": f}, workers=2,
-                         timeout=3000, xmx="3g"))
+                         timeout=3000, xmx="2g"))
     results = tlc_many(jobs, parallel=NCPU)
     nrej = 0
     for f, n, res in zip(files, nlines, results):
@@ -388,7 +388,7 @@ def validate_call_files(ck, name, files, what):
         fs.append(f)
         nlines.append(n)
         jobs.append(dict(module="TraceCalls", cfg=os.path.join(SPEC, "TraceCalls.cfg"),
-                         name="%s_%d" % (name, i), env={"TRACE": f}, workers=2, timeout=3000, xmx="3g"))
+                         name="%s_%d" % (name, i), env={"TRACE": f}, workers=2, timeout=3000, xmx="2g"))
     results = tlc_many(jobs, parallel=NCPU)
     nrej = 0
     for f, n, res in zip(fs, nlines, results):
